@@ -635,7 +635,7 @@ impl Runner {
         let (h, m, s, excl, owner) = Self::backup_options(st);
         let src_paths: BTreeSet<Vec<Vec<u8>>> = src_tree.iter().map(|n| n.p.clone()).collect();
         let injected = plan.crash_at.is_some() || !plan.fail.is_empty() || plan.fail_p > 0.0;
-        self.log.emit(json!({"ev": "call", "actor": actor, "fn": "backup", "H": h.min(1_000_000_000), "M": m.min(1_000_000_000),
+        self.log.emit(json!({"ev": "call", "actor": actor, "fn": "backup", "brk": false, "H": h.min(1_000_000_000), "M": m.min(1_000_000_000),
             "S": s.min(1_000_000_000), "excl": excl, "match": match_facts(&excl, &src_paths), "owner": owner,
             "bands": [], "dry": false, "injected": injected, "own_tree": own_tree,
             "tree": if own_tree { tree::tree_json(src_tree) } else { json!([]) }}));
@@ -694,7 +694,7 @@ impl Runner {
         let dry = st.get("dry").and_then(|x| x.as_bool()).unwrap_or(false);
         let break_lock = st.get("break_lock").and_then(|x| x.as_bool()).unwrap_or(false);
         let injected = plan.crash_at.is_some() || !plan.fail.is_empty() || plan.fail_p > 0.0;
-        self.log.emit(json!({"ev": "call", "actor": actor, "fn": "delete", "H": 0, "M": 0, "S": 0, "excl": [], "match": [], "owner": true,
+        self.log.emit(json!({"ev": "call", "actor": actor, "fn": "delete", "brk": break_lock, "H": 0, "M": 0, "S": 0, "excl": [], "match": [], "owner": true,
             "bands": bands, "dry": dry, "injected": injected, "own_tree": false, "tree": []}));
         let icpt = ActorIcpt::new(&actor, &self.arch, self.log.clone(), plan, sched.clone());
         let mon = TestMonitor::arc();
